@@ -356,6 +356,15 @@ impl Region {
         trace!("{}: '{}' remove acquiring regions_mut", db, id);
         let mut regions = db.regions_mut();
         trace!("{}: '{}' remove got locks", db, id);
+        // Refuse before touching the layout: a failed removal must leave the extent
+        // booked. Expected 3: caller, regions.index_to_region, layout.start_to_region.
+        let ref_count = Arc::strong_count(self.arc());
+        if ref_count > 3 {
+            return Err(Error::RegionStillReferenced {
+                id,
+                ref_count: ref_count - 1,
+            });
+        }
         layout.remove_region(&self)?;
         regions.remove(&self)?;
         Ok(())
